@@ -567,9 +567,9 @@ static void case_law(Rng& rng, uint64_t index)
 
 static void setup()
 {
-	add_generator("replayed_scripts", ctx().count(5400, 180000), case_reproducible);
+	add_generator("replayed_scripts", ctx().count(5400, 540000), case_reproducible);
 	add_generator("metropolis_count_grid", 784, case_metropolis_grid);
-	add_generator("containment", ctx().count(800, 20000), case_containment);
-	add_generator("laws", ctx().count(96, 960), case_law, 1800.0);
+	add_generator("containment", ctx().count(800, 60000), case_containment);
+	add_generator("laws", ctx().count(96, 2880), case_law, 1800.0);
 }
 VERIF_MAIN("C18", setup)
